@@ -177,22 +177,20 @@ static bool deref(const Tree& t, const typename Tree::iterator& it, int& v) {
     v = *it;
     return true;
 }
-// prints the "query" and "chunks" events; returns false if an iteration did not terminate
+// prints the "scan" (size + full iteration), "probe" and "chunks" events; returns false if an iteration did not terminate
 template <typename Tree>
-static bool queryPhase(const Tree& t, const std::vector<int>& probes, bool useHints, const std::vector<int>& chunkNs, long bound) {
-    std::vector<int> iter;
-    bool ok = true;
-    long n = 0;
-    for (auto it = t.begin(); it != t.end(); ++it) {
-        if (++n > bound) {
-            ok = false;
-            break;
+static bool queryPhase(const Tree& t, const std::vector<int>& probes, bool useHints, const std::vector<int>& chunkNs, long bound, bool scan = true) {
+    if (scan) {
+        std::vector<int> iter;
+        long n = 0;
+        for (auto it = t.begin(); it != t.end(); ++it) {
+            if (++n > bound) {
+                std::printf("X iteration did not reach end() after %ld steps\n", bound);
+                return false;
+            }
+            iter.push_back(*it);
         }
-        iter.push_back(*it);
-    }
-    if (!ok) {
-        std::printf("X iteration did not reach end() after %ld steps\n", bound);
-        return false;
+        std::printf("V {\"e\":\"scan\",\"size\":%ld,\"iter\":%s}\n", (long)t.size(), jlist(iter).c_str());
     }
     std::vector<int> has;
     std::vector<std::pair<bool, int>> fnd, lb, ub;
@@ -218,9 +216,9 @@ static bool queryPhase(const Tree& t, const std::vector<int>& probes, bool useHi
             ub.push_back({f, v});
         }
     }
-    std::printf("V {\"e\":\"query\",\"hints\":%d,\"size\":%ld,\"iter\":%s,\"probe\":%s,\"has\":%s,\"find\":%s,\"lb\":%s,\"ub\":%s}\n", (int)useHints,
-            (long)t.size(), jlist(iter).c_str(), jlist(probes).c_str(), jbools(has).c_str(), jopts(fnd).c_str(), jopts(lb).c_str(),
-            jopts(ub).c_str());
+    if (!probes.empty())
+        std::printf("V {\"e\":\"probe\",\"hints\":%d,\"q\":%s,\"has\":%s,\"find\":%s,\"lb\":%s,\"ub\":%s}\n", (int)useHints, jlist(probes).c_str(),
+                jbools(has).c_str(), jopts(fnd).c_str(), jopts(lb).c_str(), jopts(ub).c_str());
     for (int cn : chunkNs) {
         auto chunks = t.getChunks(cn);
         std::string s = "[";
@@ -413,8 +411,11 @@ static bool runCoop(long& jobNo, const std::string& treeName, const std::vector<
         bool spin = spinPoint(coop.lastPt[choice]) && coop.lastPt[choice] == prevPt[choice] && obj[choice] == prevObj[choice];
         prevPt[choice] = coop.lastPt[choice];
         prevObj[choice] = obj[choice];
-        for (int t = 0; t < n; t++)
-            if (t != choice) blocked[t] = 0;
+        // a step that made progress may have released what the others are waiting for; a spinning step has not
+        // (otherwise two waiting threads would keep waking each other and starve the lock holder under PCT priorities)
+        if (!spin)
+            for (int t = 0; t < n; t++)
+                if (t != choice) blocked[t] = 0;
         blocked[choice] = spin;
         cur = choice;
         flushEvents();
@@ -454,7 +455,8 @@ static bool runCoop(long& jobNo, const std::string& treeName, const std::vector<
     for (auto& p : progs) all.insert(all.end(), p.keys.begin(), p.keys.end());
     auto probes = smallProbes(all);
     long bound = (long)all.size() + 8;
-    if (queryPhase(tree, probes, false, {1, 2, 3, 5, 8}, bound)) queryPhase(tree, probes, true, {}, bound);
+    std::vector<int> cns = all.size() <= 40 ? std::vector<int>{1, 2, 3, 5, 8} : std::vector<int>{2 + (int)(all.size() % 7), 16};
+    if (queryPhase(tree, probes, false, cns, bound)) queryPhase(tree, probes, true, {}, bound, false);
     std::printf("E\n");
     std::fflush(stdout);
     return true;
@@ -650,9 +652,9 @@ static void stressJob(long& jobNo, const std::string& line, const std::vector<st
     }
     std::vector<int> probes(ps.begin(), ps.end());
     long bound = (long)keys.size() + 8;
-    if (queryPhase(tree, probes, false, {1, 2, 4, 7, 16, 100}, bound)) {
+    if (queryPhase(tree, probes, false, {(int)(1 + seed % 9), (int)(10 + seed % 120)}, bound)) {
         for (int i = (int)probes.size() - 1; i > 0; i--) std::swap(probes[i], probes[rng.below(i + 1)]);
-        queryPhase(tree, probes, true, {}, bound);
+        queryPhase(tree, probes, true, {}, bound, false);
     }
     std::printf("E\n");
     std::fflush(stdout);
@@ -697,8 +699,8 @@ static void seqJob(long& jobNo, const std::string& line, const std::vector<std::
         std::string r = Inspect<Tree>::check(tree, deletable);
         if (!r.empty()) std::printf("X structural invariant broken after step %ld (%s): %s\n", step, o.c_str(), r.c_str());
         if (full || step % 16 == 0 || step == (long)ops.size()) {
-            if (!queryPhase(tree, probes, false, full ? std::vector<int>{2, 3} : std::vector<int>{1, 2, 3, 5, 8}, bound)) break;
-            if (!full && !queryPhase(tree, probes, true, {}, bound)) break;
+            if (!queryPhase(tree, probes, false, full ? std::vector<int>{2 + (int)(step % 3)} : std::vector<int>{1, 2, 3, 5, 8}, bound)) break;
+            if (!full && !queryPhase(tree, probes, true, {}, bound, false)) break;
         }
     }
     std::printf("E\n");
